@@ -6,7 +6,7 @@ from sexpr import enc, hexs
 from odata_query import ast
 
 PROP_MODS = ["ODataVerif.Tie.Sql", "ODataVerif.Tie.SqlTemplates", "ODataVerif.Props.C01", "ODataVerif.Props.C01Chain", "ODataVerif.Props.C01Full", "ODataVerif.Spec.NumFn"] + \
-            ["ODataVerif.Props.DateOrder", "ODataVerif.Props.C01Date"]
+            ["ODataVerif.Props.DateOrder", "ODataVerif.Props.C01Date", "ODataVerif.Props.NullFlip", "ODataVerif.Props.BoolLit"]
 KF_SIG = "C01:sqlite:semOk-excluded"
 
 def texts_of(nodes):
@@ -77,6 +77,23 @@ def run(ctx):
         filters += [orchain(eqs), orchain([nul, ast.Compare(ast.In(), I(col), ast.List(lits[:2]))]), orchain([ast.Compare(ast.In(), I(col), ast.List(lits[:2])), nul, eqs[2]]),
                     ast.BoolOp(ast.And(), ast.Compare(ast.NotEq(), I(col), ast.Null()), ast.Compare(ast.NotEq(), I(col), lits[0])),
                     orchain([ast.Compare(ast.Eq(), ast.Null(), I(col)), eqs[0]])]
+    # the SAME unary operator applied twice (and three times) to an operand that binds more loosely than the context: not (not (a or b)) under and, -(-(a add b)) under
+    # mul / as the right operand of sub (cancelling the pair is sound, splicing the operand's text without its parentheses is not)
+    ors = [ast.BoolOp(ast.Or(), ast.Compare(ast.Eq(), I("i1"), ast.Integer("7")), ast.Compare(ast.Eq(), I("i2"), ast.Integer("2"))),
+           ast.BoolOp(ast.Or(), ast.Compare(ast.Eq(), I("s1"), S("ab")), ast.Compare(ast.Eq(), I("i1"), ast.Null()))]
+    ands = [ast.BoolOp(ast.And(), ast.Compare(ast.Gt(), I("i1"), ast.Integer("0")), ast.Compare(ast.Lt(), I("i2"), ast.Integer("3")))]
+    third = ast.Compare(ast.Eq(), I("i2"), ast.Integer("-7"))
+    NOT = lambda e: ast.UnaryOp(ast.Not(), e)
+    NEG = lambda e: ast.UnaryOp(ast.USub(), e)
+    for X in ors + ands:
+        for W in (NOT(NOT(X)), NOT(NOT(NOT(X))), NOT(NOT(NOT(NOT(X))))):
+            filters += [W, ast.BoolOp(ast.And(), W, third), ast.BoolOp(ast.And(), third, W), ast.BoolOp(ast.Or(), W, third), ast.BoolOp(ast.Or(), third, W),
+                        ast.Compare(ast.Eq(), W, ast.Boolean("true")), NOT(ast.BoolOp(ast.And(), W, third))]
+    for inner in (ast.BinOp(ast.Add(), I("i1"), I("i2")), ast.BinOp(ast.Sub(), I("i1"), ast.Integer("2")), ast.BinOp(ast.Mult(), I("i1"), I("i2"))):
+        for W in (NEG(NEG(inner)), NEG(NEG(NEG(inner)))):
+            for k in ("2", "-7", "0", "14"):
+                filters += [ast.Compare(ast.Eq(), ast.BinOp(ast.Mult(), W, I("i2")), ast.Integer(k)), ast.Compare(ast.Eq(), ast.BinOp(ast.Sub(), I("i2"), W), ast.Integer(k)),
+                            ast.Compare(ast.Eq(), ast.BinOp(ast.Mult(), I("i2"), W), ast.Integer(k)), ast.Compare(ast.Eq(), W, ast.Integer(k))]
     # in-lists of 1 001 / 1 500 / 2 500 elements whose only elements that are row values sit at the END (a backend that splits or truncates long lists)
     for n, tail in ((1001, ["7"]), (1500, ["2", "-7"]), (2500, ["3"]), (999, ["1"])):
         items = [ast.Integer(str(100000 + k)) for k in range(n - len(tail))] + [ast.Integer(t) for t in tail]
